@@ -1,8 +1,13 @@
 #!/bin/bash
-# usage: try_mutant.sh <patch.diff> <prop> [<prop> ...]   (applies to /repo, runs quick checks, reverts)
-P=$1; shift
-cd /repo && git apply "$P" || { echo "patch does not apply to /repo"; exit 2; }
+# usage: try_mutant.sh <patch.diff> <prop> [<prop> ...]
+# Applies the patch to a scratch worktree of /repo HEAD 
+# and runs the quick checks against it through the VERIF_REPO override: /repo itself is not touched,
+# so checks running elsewhere at the same time keep seeing the real tree.
+P=$(readlink -f "$1"); shift
+WT=/tmp/trepo-$$
+git -C /repo worktree add -q --detach $WT HEAD || exit 2
+trap 'git -C /repo worktree remove --force $WT >/dev/null 2>&1' EXIT
+git -C $WT apply "$P" || { echo "patch does not apply"; exit 2; }
 for prop in "$@"; do
-  (cd /verif && timeout 1200 bin/check $prop --tier quick 2>&1 | grep -E "^(VIOLATION|KNOWN|  sig|$prop tier|driver)" | head -12)
+  (cd /verif && VERIF_REPO=$WT timeout 1200 bin/check $prop --tier quick 2>&1 | grep -E "^(VIOLATION|KNOWN|  sig|$prop tier|driver)" | head -12)
 done
-git -C /repo checkout -- . ; git -C /repo status --short | grep -v '^??' 
